@@ -572,10 +572,12 @@ TARGETS = {os.path.join('OnlVerif', 'Generated', 'TcpCC.lean'): generate_tcpcc}
 
 
 def all_targets():
-    """every generated file: {path relative to lean/: generator}; the element targets live in `py2lean/elements.py`"""
-    from py2lean import elements
+    """every generated file: {path relative to lean/: generator}; the element targets live in `py2lean/elements.py`, the kernel
+    targets in `py2lean/kernel.py`"""
+    from py2lean import elements, kernel
     t = dict(TARGETS)
     t.update(elements.TARGETS)
+    t.update(kernel.TARGETS)
     return t
 
 
